@@ -67,6 +67,7 @@ Section Proofs.
   Variable vfront : val.
   Variable vempty : val.
   Variable route : alist val -> option Z.
+  Variable kinst : Z.
   Hypothesis rt_idem : forall v, rt (rt v) = rt v.
 
 
@@ -83,11 +84,12 @@ Section Proofs.
   Notation script_data := (script_data val).
   Notation script_acks := (script_acks val).
   Notation has_query := (has_query val).
-  Notation step := (step val rt vnet vfront vempty route).
-  Notation run_from := (run_from val rt vnet vfront vempty route).
-  Notation final := (final val rt vnet vfront vempty route).
-  Notation obs_at := (obs_at val rt vnet vfront vempty route).
-  Notation run := (run val rt vnet vfront vempty route).
+  Notation has_kick := (has_kick val).
+  Notation step := (step val rt vnet vfront vempty route kinst).
+  Notation run_from := (run_from val rt vnet vfront vempty route kinst).
+  Notation final := (final val rt vnet vfront vempty route kinst).
+  Notation obs_at := (obs_at val rt vnet vfront vempty route kinst).
+  Notation run := (run val rt vnet vfront vempty route kinst).
   Notation live := (live val).
   Notation conn_r := (conn_r val).
   Notation bsid_r := (bsid_r val).
@@ -102,9 +104,9 @@ Section Proofs.
   Notation bdirty := (bdirty val).
   Notation bdata := (bdata val rt vnet vfront vempty).
   Notation conn_of := (conn_of val).
-  Notation spec_obs := (spec_obs val rt vnet vfront vempty route).
-  Notation spec_run_from := (spec_run_from val rt vnet vfront vempty route).
-  Notation spec_run := (spec_run val rt vnet vfront vempty route).
+  Notation spec_obs := (spec_obs val rt vnet vfront vempty route kinst).
+  Notation spec_run_from := (spec_run_from val rt vnet vfront vempty route kinst).
+  Notation spec_run := (spec_run val rt vnet vfront vempty route kinst).
   Notation forward_spec := (forward_spec val rt vnet vfront vempty route).
   Notation writes_to := (writes_to val).
 
@@ -125,14 +127,14 @@ Section Proofs.
   Lemma sorted_script_front acts : forall (m nw : smap) d, sorted m -> sorted (script_front m nw d acts).
   Proof.
     induction acts as [|a r IH]; intros m nw d S; simpl; [exact S|].
-    destruct a as [k v| |]; [apply IH; exact S | | apply IH; exact S].
+    destruct a as [k v| | |]; [apply IH; exact S | | apply IH; exact S | apply IH; exact S].
     destruct d; apply IH; [apply (sorted_merge val)|]; exact S.
   Qed.
 
   Lemma sorted_script_new acts : forall nw : smap, sorted nw -> sorted (script_new nw acts).
   Proof.
     induction acts as [|a r IH]; intros nw S; simpl; [exact S|].
-    destruct a as [k v| |]; apply IH; [apply sorted_aset|..]; exact S.
+    destruct a as [k v| | |]; apply IH; [apply sorted_aset|..]; exact S.
   Qed.
 
   (* ---------- consistency of the history functions ---------- *)
@@ -141,7 +143,7 @@ Section Proofs.
   Proof.
     induction rh as [|o older IH]; simpl.
     - split; [discriminate | intros [m H]; discriminate].
-    - destruct o as [s|s|s k v|s k|s|s|b s|b k v|b k|b|b|b|b acts]; simpl; try exact IH.
+    - destruct o as [s|s|s k v|s k|s|s|b s|b k v|b k|b|b|b|b acts|s b]; simpl; try exact IH.
       + destruct (Z.eqb s sid); [|exact IH].
         destruct (conn_r older sid) eqn:C; [split; eauto | exact IH | exact IH].
       + destruct (Z.eqb s sid); [|exact IH].
@@ -154,16 +156,18 @@ Section Proofs.
         destruct (fmap_r older sid) as [m|] eqn:F; simpl.
         * split; [eauto | intros _; apply IH; eauto].
         * split; [intro H; apply IH in H; destruct H; discriminate | intros [m H]; discriminate].
-      + destruct (bsid_r older b) as [sd|]; [|exact IH]. destruct (Z.eqb sd sid); [|exact IH].
-        destruct (fmap_r older sid) as [m|] eqn:F; simpl.
-        * split; [eauto | intros _; apply IH; eauto].
-        * split; [intro H; apply IH in H; destruct H; discriminate | intros [m H]; discriminate].
+      + destruct (bsid_r older b) as [sd|]; [|exact IH]. destruct (Z.eqb sd sid); simpl; [|exact IH].
+        destruct (has_kick acts).
+        * destruct (conn_r older sid); split; try discriminate; intros [m H]; discriminate.
+        * destruct (fmap_r older sid) as [m|] eqn:F; simpl.
+          -- split; [eauto | intros _; apply IH; eauto].
+          -- split; [intro H; apply IH in H; destruct H; discriminate | intros [m H]; discriminate].
   Qed.
 
   Lemma fmap_sorted rh sid m : fmap_r rh sid = Some m -> sorted m.
   Proof.
     revert m. induction rh as [|o older IH]; intros m; simpl; [discriminate|].
-    destruct o as [s|s|s k v|s k|s|s|b s|b k v|b k|b|b|b|b acts]; simpl; try apply IH.
+    destruct o as [s|s|s k v|s k|s|s|b s|b k v|b k|b|b|b|b acts|s b]; simpl; try apply IH.
     - destruct (Z.eqb s sid); [|apply IH]. destruct (conn_r older sid); try apply IH.
       intro H. inv H. unfold Model.init_map. apply sorted_aset, sorted_aset. exact I.
     - destruct (Z.eqb s sid); [discriminate | apply IH].
@@ -173,6 +177,7 @@ Section Proofs.
       destruct (fmap_r older sid) as [m0|]; simpl; [|discriminate].
       intro H. inv H. apply (sorted_merge val). apply IH. reflexivity.
     - destruct (bsid_r older b) as [sd|]; [|apply IH]. destruct (Z.eqb sd sid); [|apply IH].
+      destruct (has_kick acts); [discriminate|].
       destruct (fmap_r older sid) as [m0|]; simpl; [|discriminate].
       intro H. inv H. apply sorted_script_front. apply IH. reflexivity.
   Qed.
@@ -180,7 +185,7 @@ Section Proofs.
   Lemma bnew_sorted rh b : sorted (bnew_r rh b).
   Proof.
     induction rh as [|o older IH]; simpl; [exact I|].
-    destruct o as [s|s|s k v|s k|s|s|b0 s|b0 k v|b0 k|b0|b0|b0|b0 acts]; simpl; try exact IH.
+    destruct o as [s|s|s k v|s k|s|s|b0 s|b0 k v|b0 k|b0|b0|b0|b0 acts|s b0]; simpl; try exact IH.
     - destruct (Z.eqb b0 b); [|exact IH]. destruct (bsid_r older b); [apply sorted_aset; exact IH | exact I].
     - destruct (Z.eqb b0 b); [|exact IH]. destruct (bsid_r older b); [apply sorted_script_new; exact IH | exact I].
   Qed.
@@ -189,7 +194,7 @@ Section Proofs.
     bsid_r rh b = None -> bnew_r rh b = [] /\ bdirty_r rh b = false /\ bdata_r rh b = [].
   Proof.
     induction rh as [|o older IH]; simpl; [auto|].
-    destruct o as [s|s|s k v|s k|s|s|b0 s|b0 k v|b0 k|b0|b0|b0|b0 acts]; simpl; try exact IH.
+    destruct o as [s|s|s k v|s k|s|s|b0 s|b0 k v|b0 k|b0|b0|b0|b0 acts|s b0]; simpl; try exact IH.
     - destruct (Z.eqb b0 b); [|exact IH].
       destruct (bsid_r older b) eqn:B; [discriminate|].
       destruct (conn_r older s); [|discriminate|discriminate]. intros _. destruct (IH eq_refl) as [N [D _]]. auto.
@@ -197,6 +202,11 @@ Section Proofs.
     - destruct (Z.eqb b0 b); [|exact IH]. intro H. destruct (IH H) as [N [_ D]]. auto.
     - destruct (Z.eqb b0 b); [|exact IH]. intro H. rewrite H. destruct (IH H) as [N [_ D]]. auto.
     - destruct (Z.eqb b0 b); [|exact IH]. intro H. rewrite H. auto.
+    - destruct (Z.eqb b0 b); [|exact IH].
+      destruct (bsid_r older b) eqn:B; [discriminate|].
+      destruct (conn_r older s) eqn:C; try discriminate; intros _; destruct (IH eq_refl) as [N [D _]];
+        (destruct (fmap_r older s) as [m|] eqn:F;
+         [assert (X : conn_r older s = CLive) by (apply fmap_live; eauto); congruence | auto]).
   Qed.
 
   (* ---------- refinement ---------- *)
@@ -247,7 +257,7 @@ Section Proofs.
     intro R. assert (LV := fun sid => rel_live rh s sid R).
     assert (CN := fun sid => rel_conn_none rh s sid R).
     destruct R as [RF RB].
-    destruct o as [s0|s0|s0 k v|s0 k|s0|s0|b0 s0|b0 k v|b0 k|b0|b0|b0|b0 acts]; simpl.
+    destruct o as [s0|s0|s0 k v|s0 k|s0|s0|b0 s0|b0 k v|b0 k|b0|b0|b0|b0 acts|s0 b0]; simpl.
     - (* OConnect *)
       destruct (aget s0 (front val s)) as [fs|] eqn:A; simpl.
       + split; [|exact RB]. intro sid. rewrite RF. unfold fstate_r. simpl.
@@ -365,15 +375,18 @@ Section Proofs.
           split.
           -- intro sid. cbn [front backs]. rewrite aget_aset_dec. unfold fstate_r. simpl. rewrite BS.
              destruct (Z.eqb_spec sid sd).
-             ++ subst. rewrite Z.eqb_refl, F. simpl. rewrite C. reflexivity.
-             ++ destruct (Z.eqb_spec sd sid); [congruence|]. rewrite RF. reflexivity.
+             ++ subst. rewrite Z.eqb_refl, F. simpl. rewrite C. destruct (has_kick acts); reflexivity.
+             ++ destruct (Z.eqb_spec sd sid); [congruence|]. simpl. rewrite RF. reflexivity.
           -- intro b. cbn [front backs]. rewrite aget_aset_dec. unfold bstate_r. simpl.
              destruct (Z.eqb_spec b b0).
              ++ subst. rewrite Z.eqb_refl, BS, F. unfold Spec.live_r. rewrite C. simpl. reflexivity.
              ++ destruct (Z.eqb_spec b0 b); [congruence|]. rewrite RB. reflexivity.
         * split.
           -- intro sid. cbn [front backs]. rewrite RF. unfold fstate_r. simpl. rewrite BS.
-             destruct (Z.eqb_spec sd sid); [|reflexivity]. subst. rewrite F. reflexivity.
+             destruct (Z.eqb_spec sd sid); simpl; [|reflexivity]. subst. rewrite F.
+             destruct (has_kick acts); [|reflexivity].
+             destruct (conn_r rh sid) eqn:C; try reflexivity.
+             apply fmap_live in C. destruct C as [m C]. congruence.
           -- intro b. cbn [front backs]. rewrite aget_aset_dec. unfold bstate_r. simpl.
              destruct (Z.eqb_spec b b0).
              ++ subst. rewrite Z.eqb_refl, BS, F. unfold Spec.live_r.
@@ -386,6 +399,23 @@ Section Proofs.
         * intro b. rewrite RB. unfold bstate_r. simpl.
           destruct (Z.eqb_spec b0 b); [|reflexivity]. subst.
           rewrite RB in A. unfold bstate_r in A. destruct (bsid_r rh b); [discriminate | reflexivity].
+    - (* OForwardKeep *)
+      rewrite LV. destruct (fmap_r rh s0) as [m|] eqn:F; simpl.
+      + assert (C : conn_r rh s0 = CLive) by (apply fmap_live; eauto).
+        destruct (aget b0 (backs val s)) as [bs|] eqn:A; simpl.
+        * split; [exact RF|]. intro b. rewrite RB. unfold bstate_r. simpl.
+          destruct (Z.eqb_spec b0 b); [|reflexivity]. subst.
+          rewrite RB in A. unfold bstate_r in A. destruct (bsid_r rh b); [reflexivity | discriminate].
+        * rewrite RB in A. unfold bstate_r in A. destruct (bsid_r rh b0) eqn:BS; [discriminate|].
+          split; [exact RF|]. intro b. cbn [front backs]. rewrite aget_aset_dec. unfold bstate_r. simpl.
+          destruct (Z.eqb_spec b b0).
+          -- subst. rewrite Z.eqb_refl, BS, C, F. destruct (no_handle rh b0 BS) as [N1 [N2 _]]. rewrite N1, N2. reflexivity.
+          -- destruct (Z.eqb_spec b0 b); [congruence|]. rewrite RB. reflexivity.
+      + split; [exact RF|]. intro b. rewrite RB. unfold bstate_r. simpl.
+        destruct (Z.eqb_spec b0 b); [|reflexivity]. subst.
+        destruct (bsid_r rh b) eqn:BS; [reflexivity|].
+        destruct (conn_r rh s0) eqn:C; try reflexivity.
+        apply fmap_live in C. destruct C as [m C]. congruence.
   Qed.
 
   Lemma run_from_app a : forall s b,
@@ -436,7 +466,7 @@ Section Proofs.
     assert (LV := fun sid => rel_live (rev h) (final h) sid R).
     assert (CN := fun sid => rel_conn_none (rev h) (final h) sid R).
     destruct R as [RF RB]. unfold Spec.spec_obs, Spec.forward_spec, Spec.fmap, Spec.bsid, Spec.conn_of, Spec.bnew, Spec.bdata.
-    destruct o as [s0|s0|s0 k v|s0 k|s0|s0|b0 s0|b0 k v|b0 k|b0|b0|b0|b0 acts]; simpl.
+    destruct o as [s0|s0|s0 k v|s0 k|s0|s0|b0 s0|b0 k v|b0 k|b0|b0|b0|b0 acts|s0 b0]; simpl.
     - destruct (aget s0 (front val (final h))) as [fs|] eqn:A.
       + simpl. destruct (conn_r (rev h) s0) eqn:C; [|reflexivity|reflexivity].
         apply CN in C. congruence.
@@ -458,7 +488,8 @@ Section Proofs.
     - rewrite RB. unfold bstate_r. destruct (bsid_r (rev h) b0) as [sd|]; [|reflexivity]. simpl.
       rewrite LV. destruct (fmap_r (rev h) sd); reflexivity.
     - rewrite RB. unfold bstate_r. destruct (bsid_r (rev h) b0) as [sd|]; [|reflexivity]. simpl.
-      rewrite LV. destruct (fmap_r (rev h) sd); reflexivity.
+      rewrite LV. destruct (fmap_r (rev h) sd); [destruct (has_kick acts)|]; reflexivity.
+    - rewrite LV. destruct (fmap_r (rev h) s0); reflexivity.
   Qed.
 
   Lemma run_from_snd s ops :
@@ -507,7 +538,7 @@ Section Proofs.
   Theorem frame h o sid : writes_to h o <> Some sid -> fmap (h ++ [o]) sid = fmap h sid.
   Proof.
     intro N. rewrite fmap_snoc. unfold Spec.fmap.
-    destruct o as [s0|s0|s0 k v|s0 k|s0|s0|b0 s0|b0 k v|b0 k|b0|b0|b0|b0 acts]; simpl in *; try reflexivity.
+    destruct o as [s0|s0|s0 k v|s0 k|s0|s0|b0 s0|b0 k v|b0 k|b0|b0|b0|b0 acts|s0 b0]; simpl in *; try reflexivity.
     - destruct (Z.eqb_spec s0 sid); [congruence | reflexivity].
     - destruct (Z.eqb_spec s0 sid); [congruence | reflexivity].
     - destruct (Z.eqb_spec s0 sid); [congruence | reflexivity].
@@ -607,7 +638,7 @@ Section Proofs.
   Lemma script_new_keeps acts : forall (nw : smap) k, aget k nw <> None -> aget k (script_new nw acts) <> None.
   Proof.
     induction acts as [|a r IH]; intros nw k H; simpl; [exact H|].
-    destruct a as [k0 v| |]; apply IH; [|exact H|exact H].
+    destruct a as [k0 v| | |]; apply IH; [|exact H|exact H|exact H].
     rewrite aget_aset_dec. destruct (Z.eqb k k0); [discriminate | exact H].
   Qed.
 
@@ -623,7 +654,7 @@ Section Proofs.
   Proof.
     induction acts as [|a r IH]; intros m nw d P S H K; simpl.
     - destruct H as [H|H]; [left; exact H | right]. intros k [PK|F]; [apply H; exact PK | discriminate].
-    - destruct a as [k0 v| |].
+    - destruct a as [k0 v| | |].
       + destruct (IH m (aset k0 v nw) true (fun k => P k \/ k = k0) (sorted_aset _ _ _ S)) as [D|R].
         * left. reflexivity.
         * intros k [PK|E]; rewrite aget_aset_dec; destruct (Z.eqb_spec k k0); try discriminate; [apply K; exact PK | congruence].
@@ -636,12 +667,13 @@ Section Proofs.
           specialize (K k PK). destruct (aget k nw); [reflexivity | contradiction].
         * apply (IH m nw false P S); [|exact K]. destruct H as [H|H]; [discriminate | right; exact H].
       + apply (IH m nw d P S H K).
+      + apply (IH m nw d P S H K).
   Qed.
 
   Lemma script_new_set acts : forall (nw : smap) k, set_in k acts = true -> aget k (script_new nw acts) <> None.
   Proof.
     induction acts as [|a r IH]; intros nw k H; simpl in *; [discriminate|].
-    destruct a as [k0 v| |]; simpl in H; try (apply IH; exact H).
+    destruct a as [k0 v| | |]; simpl in H; try (apply IH; exact H).
     apply orb_true_iff in H. destruct H as [H|H]; [|apply IH; exact H].
     apply Z.eqb_eq in H. subst. apply script_new_keeps. rewrite aget_aset_same. discriminate.
   Qed.
@@ -650,14 +682,14 @@ Section Proofs.
      finally pushes once more: every key it set has, on the front-end, the normal form of the
      last value it set - nothing set between a push and its acknowledgement is lost. *)
   Theorem script_then_push h b sid m acts :
-    bsid h b = Some sid -> fmap h sid = Some m -> has_query acts = false ->
+    bsid h b = Some sid -> fmap h sid = Some m -> has_query acts = false -> has_kick acts = false ->
     exists m', fmap ((h ++ [OBackScript b acts]) ++ [OBackPush b]) sid = Some m' /\
       forall k, set_in k acts = true ->
         exists v, aget k (bnew ((h ++ [OBackScript b acts]) ++ [OBackPush b]) b) = Some v /\
                   aget k m' = Some (rt v).
   Proof.
-    unfold Spec.bsid, Spec.fmap, Spec.bnew. intros BS F HQ. rewrite !rev_unit. simpl.
-    unfold Spec.effective_push. simpl. rewrite Z.eqb_refl, BS, Z.eqb_refl, F, HQ, andb_false_r. simpl.
+    unfold Spec.bsid, Spec.fmap, Spec.bnew. intros BS F HQ HK. rewrite !rev_unit. simpl.
+    unfold Spec.effective_push. simpl. rewrite Z.eqb_refl, BS, Z.eqb_refl, F, HQ, HK, andb_false_r. simpl.
     set (nw := bnew_r (rev h) b). set (d := bdirty_r (rev h) b).
     assert (SN : sorted nw) by apply bnew_sorted.
     destruct (script_inv acts m nw d (fun _ => False) SN) as [D|R].
@@ -673,6 +705,84 @@ Section Proofs.
         destruct (aget k (script_new nw acts)) as [v|] eqn:E; try contradiction; exists v; (split; [reflexivity|]).
       + rewrite (merge_law val); [|apply sorted_norm, sorted_script_new; exact SN]. rewrite aget_norm, E. reflexivity.
       + rewrite (R k (or_intror SK)), E. reflexivity.
+  Qed.
+
+
+  (* ---------- the closing window ---------- *)
+
+  Definition no_kicks (acts : list (act val)) : list (act val) :=
+    filter (fun a => negb (is_kick val a)) acts.
+
+  (* a kick anywhere in a script changes neither what its pushes merge into the front-end's
+     map nor what its queries return: the session is fully there until it is removed *)
+  Lemma kick_transparent acts : forall (m nw : smap) d,
+    script_front m nw d acts = script_front m nw d (no_kicks acts) /\
+    script_snaps m nw d acts = script_snaps m nw d (no_kicks acts).
+  Proof.
+    induction acts as [|a r IH]; intros m nw d; simpl; [auto|].
+    destruct a as [k v| | |]; simpl; try apply IH.
+    - destruct d; apply IH.
+    - destruct (IH m nw d) as [A B]. rewrite A, B. auto.
+  Qed.
+
+  Theorem closing_window h b sid m acts :
+    bsid h b = Some sid -> fmap h sid = Some m -> has_kick acts = true ->
+    obs_at h (OBackScript b acts) =
+      BAcksClosed (script_acks true acts) (norm (script_front m (bnew h b) (bdirty h b) (no_kicks acts))) /\
+    fmap (h ++ [OBackScript b acts]) sid = None /\
+    bdata (h ++ [OBackScript b acts]) b =
+      script_data (bdata h b) (script_snaps m (bnew h b) (bdirty h b) (no_kicks acts)).
+  Proof.
+    intros BS F HK. split; [|split].
+    - rewrite obs_spec. simpl. rewrite BS, F, HK.
+      destruct (kick_transparent acts m (bnew h b) (bdirty h b)) as [A _]. rewrite A. reflexivity.
+    - rewrite fmap_snoc. simpl. unfold Spec.bsid in BS. rewrite BS, Z.eqb_refl, HK. reflexivity.
+    - rewrite bdata_snoc. simpl. unfold Spec.bsid, Spec.fmap in *. rewrite Z.eqb_refl, BS, F.
+      destruct (kick_transparent acts m (bnew_r (rev h) b) (bdirty_r (rev h) b)) as [_ B].
+      unfold Spec.bnew, Spec.bdirty, Spec.bdata. rewrite B. reflexivity.
+  Qed.
+
+  Theorem onclose_view h sid m :
+    fmap h sid = Some m -> obs_at h (ORemove sid) = BClosed (norm m).
+  Proof. intro F. rewrite obs_spec. simpl. rewrite F. reflexivity. Qed.
+
+  (* ---------- a handle addresses its own connection for as long as it is used ---------- *)
+
+  Lemma bsid_step rh o b s : bsid_r rh b = Some s -> bsid_r (o :: rh) b = Some s.
+  Proof.
+    intro H. destruct o as [s0|s0|s0 k v|s0 k|s0|s0|b0 s0|b0 k v|b0 k|b0|b0|b0|b0 acts|s0 b0]; simpl; try exact H.
+    - destruct (Z.eqb b0 b); [|exact H]. rewrite H. reflexivity.
+    - destruct (Z.eqb b0 b); [|exact H]. rewrite H. reflexivity.
+  Qed.
+
+  Theorem handle_identity h h' b s : bsid h b = Some s -> bsid (h ++ h') b = Some s.
+  Proof.
+    unfold Spec.bsid. intro H. induction h' as [|o r IH] using rev_ind.
+    - rewrite app_nil_r. exact H.
+    - rewrite app_assoc, rev_unit. apply bsid_step. exact IH.
+  Qed.
+
+  (* the session a handler kept from a forwarded request of [sid] belongs to [sid] *)
+  Theorem kept_session h sid b m :
+    fmap h sid = Some m -> bsid h b = None ->
+    bsid (h ++ [OForwardKeep sid b]) b = Some sid /\
+    bdata (h ++ [OForwardKeep sid b]) b = aset k_id (id_of val vempty m) [].
+  Proof.
+    intros F B. unfold Spec.bsid, Spec.fmap in *. split.
+    - rewrite rev_unit. simpl. rewrite Z.eqb_refl, B.
+      assert (C : conn_r (rev h) sid = CLive) by (apply fmap_live; eauto). rewrite C. reflexivity.
+    - rewrite bdata_snoc. simpl. rewrite Z.eqb_refl, B, F. reflexivity.
+  Qed.
+
+  (* whatever it does later through that session changes only that connection's map *)
+  Theorem late_use_frame h h' b sid o sid' :
+    bsid h b = Some sid ->
+    (o = OBackPush b \/ exists acts, o = OBackScript b acts) ->
+    sid' <> sid ->
+    fmap ((h ++ h') ++ [o]) sid' = fmap (h ++ h') sid'.
+  Proof.
+    intros B O N. apply frame. assert (X := handle_identity h h' b sid B).
+    destruct O as [O|[acts O]]; subst o; simpl; rewrite X; congruence.
   Qed.
 
 End Proofs.
